@@ -777,6 +777,59 @@ func Select(hasDefault bool, cases ...Case) {
 	}
 }
 
+// SelectIdx replaces a select statement under the scheduler: it blocks until a case is
+// ready (or returns -1 for default when none is), lets the explorer choose among several
+// ready cases (cost 0), and returns the index of the chosen case (in source order, default
+// excluded). The caller then performs that communication as a plain statement, which cannot
+// block because only the running thread changes channel state.
+func SelectIdx(hasDefault bool, cases ...Case) int {
+	s := active()
+	if s == nil {
+		panic("vsched: SelectIdx called without an armed scheduler")
+	}
+	type cv struct {
+		send bool
+		v    reflect.Value
+		ok   bool
+	}
+	cs := make([]cv, len(cases))
+	var names []string
+	for i, c := range cases {
+		v, ok := chanVal(c.Ch)
+		if ok && c.Send && v.Cap() == 0 {
+			panic("vsched: select send on unbuffered channel is not supported under the scheduler")
+		}
+		cs[i] = cv{c.Send, v, ok}
+		if ok {
+			names = append(names, s.name(c.Ch))
+		}
+	}
+	ready := func() []int {
+		var r []int
+		for i, c := range cs {
+			if !c.ok {
+				continue
+			}
+			if (c.send && s.sendReady(c.v)) || (!c.send && s.recvReady(c.v)) {
+				r = append(r, i)
+			}
+		}
+		return r
+	}
+	s.point("select", strings.Join(names, ","), func() bool { return hasDefault || len(ready()) > 0 })
+	r := ready()
+	switch len(r) {
+	case 0:
+		return -1
+	case 1:
+		s.chanHB(cs[r[0]].v)
+		return r[0]
+	}
+	k := Choose(len(r), 0, "select-ready-case")
+	s.chanHB(cs[r[k]].v)
+	return r[k]
+}
+
 // Close replaces close(ch).
 func Close(ch interface{}) {
 	s := active()
